@@ -204,8 +204,24 @@ use serde::{Serialize, Deserialize};
 #[soa_attr(Vec, cfg_attr(all(), derive(Clone)))]
 #[soa_attr(Vec, cfg_attr(all(), derive(Eq)))]
 pub struct P { pub a: u32, pub b: u8 }
+// a derive addressed to one view / reference type through soa_attr lands on that type (Serialize is vector-only only as a
+// soa_derive request; `&[T]`, `&mut [T]`, `&T`, `&mut T` are all Serialize)
+#[derive(StructOfArray, Clone, Debug, PartialEq, Serialize)]
+#[soa_derive(Debug, PartialEq)]
+#[soa_attr(Slice, derive(Serialize))]
+#[soa_attr(SliceMut, derive(Serialize))]
+#[soa_attr(Ref, derive(Serialize))]
+#[soa_attr(RefMut, derive(Serialize))]
+pub struct Q { pub a: u32, pub b: u8 }
+fn ser<T: Serialize>(t: &T) -> String { serde_json::to_string(t).expect("serialize") }
 fn needs<T: Clone + Eq>() {}
 fn main() {
+    let mut q = QVec::new();
+    q.push(Q { a: 1, b: 2 }); q.push(Q { a: 3, b: 4 });
+    if ser(&q.as_slice()) != r#"{"a":[1,3],"b":[2,4]}"# { println!("FAIL serde-view Slice: {}", ser(&q.as_slice())); }
+    if ser(&q.as_mut_slice()) != r#"{"a":[1,3],"b":[2,4]}"# { println!("FAIL serde-view SliceMut: {}", ser(&q.as_mut_slice())); }
+    if ser(&q.index(1)) != r#"{"a":3,"b":4}"# { println!("FAIL serde-view Ref: {}", ser(&q.index(1))); }
+    if ser(&q.index_mut(0)) != r#"{"a":1,"b":2}"# { println!("FAIL serde-view RefMut: {}", ser(&q.index_mut(0))); }
     needs::<PVec>();
     let mut v = PVec::new();
     v.push(P { a: 1, b: 2 });
